@@ -435,6 +435,8 @@ def c09(run):
     r_blkmore.run_size_field(run, P)
     from rules import r_freshlabel
     r_freshlabel.run(run, P)
+    from rules import r_elemshift
+    r_elemshift.run(run, P)              # the sorted list of requested Q-Block2 numbers (and the received-block ranges) are edited by whole elements, in the direction the count says
     run.min_instances('R-RELEASE-ONCE', 5)
     run.assumptions = ASSUME_COMMON + ["body integrity, tiling, at-most-once delivery, token hiding and size fitting (arithmetic over runtime lengths and schedules) are NOT decided",
                                        "paths on which taking the global lock fails carry no obligations"]
@@ -534,6 +536,8 @@ def c02(run):
     r_dangfield.run(run, P)
     from rules import r_nullbelief
     r_nullbelief.run(run, P)
+    from rules import r_elemshift
+    r_elemshift.run(run, P)
     run.min_instances('R-NULL-BELIEF', 100)
     from rules import r_uaf
     r_uaf.run(run, P)                    # nothing is used after it was handed to a destructor or handed over with its release callback
